@@ -12,7 +12,7 @@ from harness import common
 def shake_load_factor(ctx) -> None:
     """Document-level checks parse small ledgers; with the default load factor (1000 tokens per block) the token
     store under them never leaves its single-block fast paths. Every parse therefore first draws a load factor
-    from {3, 5, 9, 1000} (seeded), so splits, merges and re-balancing happen under every property's edits.
+    from {2, 3, 4, 6, 1000} (seeded), so splits, merges and re-balancing happen under every property's edits.
     (The store invariant does not depend on the load factor, so it may change between operations.)"""
     import random
     from autobean_refactor import parser as parser_lib
@@ -22,11 +22,11 @@ def shake_load_factor(ctx) -> None:
 
     def parse(self, text, target, **kw):
         if not getattr(sd, 'LF_PINNED', False):
-            sd.set_load_factor(rng.choice([3, 5, 9, 1000, 1000]))
+            sd.set_load_factor(rng.choice([2, 2, 3, 4, 6, 1000]))
         return orig(self, text, target, **kw)
 
     parser_lib.Parser.parse = parse
-    ctx.notes.append('token_store load factor drawn from {3,5,9,1000} before every parse')
+    ctx.notes.append('token_store load factor drawn from {2,3,4,6,1000} before every parse')
 
 
 def main() -> int:
